@@ -126,11 +126,13 @@ hasperr:
 		case db.compErrC <- err:
 		case db.compPerErrC <- err:
 		case db.writeLockC <- struct{}{}:
+			verifEvent(200, 9, 0)
 			// Hold write lock, so that write won't pass-through.
 			db.compWriteLocking = true
 		case <-db.closeC:
 			if db.compWriteLocking {
 				// We should release the lock or Close will hang.
+				verifEvent(201, 9, 0)
 				<-db.writeLockC
 			}
 			return
@@ -260,7 +262,9 @@ func (db *DB) compactionExitTransact() {
 
 func (db *DB) compactionCommit(name string, rec *sessionRecord) {
 	db.compCommitLk.Lock()
+	verifEvent(210, 12, 0)
 	defer db.compCommitLk.Unlock() // Defer is necessary.
+	defer verifEvent(211, 12, 0)
 	db.compactionTransactFunc(name+"@commit", func(cnt *compactionTransactCounter) error {
 		return db.s.commit(rec, true)
 	}, nil)
